@@ -25,9 +25,9 @@ theorem C21_lookup_innermost_scope (st : SymTab ν) (x : ν) :
     scoping: every use resolves to the most recent enclosing binder that is still in scope
     (`specStmts`: one environment, a block's bindings end with the block), else to the file-level
     declaration, else it is unresolved. -/
-theorem C21_lookup_innermost (w : World ν) (st : SymTab ν) (ss : List (Stmt ν)) :
-    (resolveStmts w true st ss).2 = (specStmts w st.flatten ss).2 :=
-  (resolveStmts_refines w st st.flatten (lookup_eq_get_flatten st) ss).1
+theorem C21_lookup_innermost (w : World ν) (kids : Table ν) (st : SymTab ν) (ss : List (Stmt ν)) :
+    (resolveStmts w true kids st ss).2 = (specStmts w kids st.flatten ss).2 :=
+  (resolveStmts_refines w kids st st.flatten (lookup_eq_get_flatten st) ss).1
 
 /-- The names visible at file level are exactly: builtins, the prelude, the file's own
     declarations and what each `use` item lets through — all of the imported file's names, only
@@ -46,8 +46,7 @@ theorem C21_import_first_supplier (w : World ν) (file : Nat) (x : ν) :
   rw [(effective_eq w file).1, insertAll_get]
 
 theorem C21_import_decl (w : World ν) (file m : Nat) (x : ν) :
-    Table.get (importSupply w file (Import.glob m)) x =
-      if x ∈ declsOf w m then some (Decl.fn m x) else none :=
+    Table.get (importSupply w file (Import.glob m)) x = Table.get (ownEntries w m) x :=
   ownTable_get w m x
 
 /-- Qualified access: with `use m as p`, `p.x` reaches exactly the declaration that `use m`
@@ -80,33 +79,129 @@ theorem C21_clash_iff (w : World ν) (file : Nat) (x : ν) :
 theorem C21_clash_iff_own (w : World ν) (file : Nat) (x : ν) :
     x ∈ (ownTable w file).2 ↔ 2 ≤ (declsOf w file).count x := by
   unfold ownTable declsOf
-  cases w.files[file]? with
-  | none => simp
-  | some f =>
-    simp only [gather_eq, insertAll_clashes]
-    rw [← List.count_pos_iff, mem_dupsAfter_count]
-    have : keys (f.decls.map fun y => (y, Decl.fn file y)) = f.decls := by
-      simp [keys, Function.comp_def]
-    rw [this]
-    simp [keys]
-    omega
+  rw [gather_eq, insertAll_clashes, ← List.count_pos_iff, mem_dupsAfter_count]
+  simp [keys]
+  omega
+
+/-! ### child namespaces (enum variants, interface methods, `as` prefixes) -/
+
+/-- The child namespaces visible at file level are exactly those of the file's own enums and
+    interfaces and those each `use` item brings along; an item brings a child namespace along
+    exactly when it makes the owning declaration visible (`C21_child_visible_iff`): all of them,
+    only the listed ones, all but the `except` list, or just the `as` prefix. -/
+theorem C21_children_exact (w : World ν) (file : Nat) (x : ν) :
+    x ∈ keys (effective w file).kids ↔
+      x ∈ typeNames w file ∨ ∃ i ∈ importsOf w file, kidVisibleThrough w i x :=
+  effective_kids w file x
+
+theorem C21_child_visible_iff (w : World ν) (i : Import ν) (x : ν) :
+    kidVisibleThrough w i x ↔ visibleThrough w i x ∧
+      (match i with
+       | .glob m | .incl m _ | .excl m _ => x ∈ typeNames w m
+       | _ => True) :=
+  kidVisibleThrough_iff w i x
+
+/-- A name that no source supplies as an enum / interface / prefix has no child namespace: a
+    filtered-out enum of an imported file is not reachable through a qualified pattern. -/
+theorem C21_filtered_child_invisible (w : World ν) (file : Nat) (x : ν) (v : ν)
+    (hown : x ∉ typeNames w file) (himp : ∀ i ∈ importsOf w file, ¬ kidVisibleThrough w i x) :
+    resolvePat w (effective w file).kids none x v = Res.unresolved := by
+  have : x ∉ keys (effective w file).kids := by
+    rw [C21_children_exact]
+    rintro (h | ⟨i, hi, hx⟩)
+    · exact hown h
+    · exact himp i hi hx
+  simp [resolvePat, (get_eq_none_iff _ _).2 this, variantOf]
+
+theorem nodup_of_no_clash (w : World ν) (file : Nat) (h : (effective w file).clashes = []) :
+    (keys (builtinTable w ++ supply w file)).Nodup := by
+  rw [List.nodup_iff_count]
+  intro x
+  have := C21_clash_count w file x
+  rw [h] at this
+  simp only [List.count_nil] at this
+  simp only [keys, List.map_append] at this ⊢
+  omega
+
+theorem nodup_of_no_own_clash (w : World ν) (m : Nat) (h : (ownTable w m).2 = []) :
+    (keys (ownEntries w m)).Nodup := by
+  rw [List.nodup_iff_count]
+  intro x
+  have hc : (ownTable w m).2.count x = 0 := by rw [h]; rfl
+  unfold ownTable at hc
+  rw [gather_eq, insertAll_clashes, mem_dupsAfter_count] at hc
+  simp [keys] at hc
+  simp only [keys]
+  omega
+
+/-- In a program without name clashes the child namespace found under a name is the one of the
+    declaration found under that name (and there is none when that declaration is a function, a
+    builtin or a prelude item): namespaces and declarations never drift apart. -/
+theorem C21_children_follow_decls (w : World ν) (file : Nat)
+    (hown : ∀ m, (ownTable w m).2 = []) (hc : (effective w file).clashes = []) (x : ν) :
+    (effective w file).kids.get x = nsOnly ((effective w file).table.get x) :=
+  effective_kids_get w file (fun m => nodup_of_no_own_clash w m (hown m)) (nodup_of_no_clash w file hc) x
+
+theorem variantOf_nsOnly (w : World ν) (v : ν) (o : Option (Decl ν)) :
+    variantOf w v (nsOnly o) = variantOf w v o := by
+  cases o with
+  | none => rfl
+  | some d => cases d <;> simp [nsOnly, isNs, variantOf]
+
+/-- Qualified variant pattern = variant expression: in a clash-free program the arm `Ty.V`
+    resolves (through the namespaces) to the variant of the very enum that the expression `Ty.V`
+    resolves to (through the declarations) at file level — the innermost visible `Ty`. -/
+theorem C21_pattern_same_decl (w : World ν) (file : Nat)
+    (hown : ∀ m, (ownTable w m).2 = []) (hc : (effective w file).clashes = []) (ty v : ν) :
+    resolvePat w (effective w file).kids none ty v =
+      resolveEnumExpr w (fileSymTab w file) none ty v := by
+  simp only [resolvePat, resolveEnumExpr, enumExprWith, fileSymTab, lookup]
+  rw [C21_children_follow_decls w file hown hc, variantOf_nsOnly]
+  cases (effective w file).table.get ty <;> rfl
+
+/-- a variant written through a prefix reaches the enum `use m` supplies under that name -/
+theorem C21_qualified_variant_same_decl (w : World ν) (st : SymTab ν) (file f m : Nat) (p ty v : ν)
+    (hp : lookup st p = some (Decl.alias f p m)) :
+    resolveEnumExpr w st (some p) ty v =
+      variantOf w v (Table.get (importSupply w file (Import.glob m)) ty) := by
+  simp [resolveEnumExpr, enumExprWith, hp, declOfPrefix, importSupply]
 
 /-! ### non-vacuity: two files, shadowing three deep, every import form -/
 
 private def w2 : World Nat :=
   { builtins := [100], prelude := [101],
     files := [
-      { decls := [1, 2], imports := [.incl 1 [3, 9], .as_ 1 7], probe := [],
+      { decls := [1, 2], types := [⟨22, true, [30, 31]⟩], imports := [.incl 1 [3, 9], .as_ 1 7], probe := [],
         top := [.use 3, .letv 3 50, .use 3,
                 .block [.letv 1 51, .use 1, .forv 3 52 [.use 3, .matchv 3 53 [.use 3]], .use 3],
                 .use 1, .quse 7 4, .use 4] },
-      { decls := [3, 4], imports := [.glob 0, .excl 0 [2], .missing], probe := [], top := [] } ] }
+      { decls := [3, 4], types := [⟨20, true, [31, 32]⟩, ⟨21, false, [33]⟩], imports := [.glob 0, .excl 0 [2], .missing], probe := [], top := [] } ] }
 
 example : resolveTop w2 true 0 =
     [.to (.fn 1 3), .to (.loc 50), .to (.loc 51), .to (.loc 52), .to (.loc 53), .to (.loc 50),
      .to (.fn 0 1), .to (.fn 1 4), .unresolved] := by decide
 example : (effective w2 0).clashes = [] := by decide
-example : (effective w2 1).clashes = [1] := by decide    -- `1` supplied by `use main` and again by `use main except (2)`
+example : (effective w2 1).clashes = [1, 22] := by decide    -- supplied by `use main` and again by `use main except (2)`
 example : lookup (fileSymTab w2 0) 7 = some (Decl.alias 0 7 1) := by decide
+
+/-- the shape `use f except Name` with an own enum `Name`: the arm `Name.V` means the own enum;
+    a variant that only the excluded enum has does not resolve -/
+private def w3 : World Nat :=
+  { builtins := [], prelude := [],
+    files := [
+      { decls := [], types := [⟨20, true, [30, 31]⟩], imports := [.excl 1 [20]], probe := [],
+        top := [.pmatch none 20 30, .euse none 20 31, .pmatch none 20 33, .use 5] },
+      { decls := [5], types := [⟨20, true, [31, 32, 33]⟩], imports := [], probe := [], top := [] } ] }
+
+example : resolveTop w3 true 0 =
+    [.to (.variant 0 0 20 30), .to (.variant 0 0 20 31), .unresolved, .to (.fn 1 5)] := by decide
+example : (effective w3 0).clashes = [] := by decide
+example : (effective w3 0).kids.get 20 = some (Decl.enum_ 0 0 20) := by decide
+example : (∀ m, (ownTable w3 m).2 = []) := by
+  intro m
+  match m with
+  | 0 => decide
+  | 1 => decide
+  | n + 2 => rfl
 
 end Abra.Names
